@@ -12,7 +12,7 @@ RULE = ("random histories of 10-45 operations biased towards vectors built over 
         "a write happened while storage was really shared, or an object was collected before a later successful write")
 ASSUMED = ["weak references die exactly at collection; id() of a live object is unique (CPython)",
            "the registry is compared through its live view (dead weak references are invisible to every registry operation)"]
-MIX = {"sel2d": 2, "fillna": 1, "dropna": 1, "vcat": 2, "newvec": 8, "newtab_dict": 2, "newtab_vecs": 2, "copy": 2, "slice": 3, "colview": 3, "stack": 2, "setv": 12,
+MIX = {"sel2d": 2, "transpose": 2, "fillna": 1, "dropna": 1, "vcat": 2, "newvec": 8, "newtab_dict": 2, "newtab_vecs": 2, "copy": 2, "slice": 3, "colview": 3, "stack": 2, "setv": 12,
        "sett": 3, "setattr": 4, "fp": 1, "read": 1, "drop": 5, "cycle_drop": 3, "gc": 2, "math": 1, "sort": 1}
 
 
@@ -44,8 +44,12 @@ def planted():
                    ["newvec", [7] * n, None, None], W(1, 0, 1), ["newvec", [8] * n, None, None], W(2, 0, 1), W(0, 0, 3)])
         # derivations of a live vector that hold the same values: each is writable, and so is the source
         for der in (["slice", 0, None, None, None], ["slice", 0, 0, 99, 1], ["vcat", 0, []], ["fillna", 0], ["dropna", 0],
-                    ["copy", 0], ["sort", 0], ["mask", 0, [True]]):
+                    ["copy", 0], ["sort", 0], ["mask", 0, [True]], ["transpose", 0]):
             ps.append([["newvec", [v + 1 for v in vals], "s", None], der, W(1, 0, 9), W(0, 0, 8), der, W(0, 0, 7), W(2, 0, 6)])
+    # a vector that is its own key (perm[perm] = x) or its own value (v[:] = v): nobody else shares its storage
+    for vals in ([0, 1, 2], [2, 0, 1], [1, 1, 0, 3]):
+        ps.append([["newvec", vals, "perm", None], ["setv", 0, ["idxslot", 0], ["s", 0]], ["setv", 0, ["idxslot", 0], ["s", 1]],
+                   W(0, 0, 2)])
     # a column REPLACED by a tuple the caller also holds a vector over (t.col = T, t.col__N = T): the table owns its
     # columns - the new column is writable at once, through its view and through the table, and so is the caller's vector
     for t in (0, 1):
